@@ -230,9 +230,21 @@ func (g *Gen) freshNonce(src uint32) uint64 {
 	}
 }
 
+// otherCase: the same bech32 address in the other letter case (also a valid address string, but a different string:
+// role holders are identified by their exact string).
+func otherCase(a string) string {
+	if a == strings.ToLower(a) {
+		return strings.ToUpper(a)
+	}
+	return strings.ToLower(a)
+}
+
 func (g *Gen) roleHolderOr(which string, pWrong float64) string {
 	if g.chance(pWrong) {
-		if g.chance(0.3) {
+		switch {
+		case g.chance(0.25) && g.role(which) != "":
+			return otherCase(g.role(which))
+		case g.chance(0.3):
 			return g.weirdAddress()
 		}
 		return g.anyAcct()
@@ -277,6 +289,8 @@ func (g *Gen) randomAdmin() {
 		from := g.role("pending")
 		if from == "" || g.chance(pw) {
 			from = g.anyAcct()
+		} else if g.chance(0.1) {
+			from = otherCase(from)
 		}
 		g.tx("AcceptOwner", newKV().set("from", hs(from)))
 	case 2:
